@@ -89,6 +89,7 @@ def resultS : Except Err (Reply B) → String
   | .error (.handler msg) => "err:handler:" ++ U msg
   | .error (.unhandled x) => s!"err:unhandled:{x.toNat}"
   | .error .noHandlers => "err:nohandlers"
+  | .error .registration => "err:registration"
 
 structure ErrO where
   set : Bool
@@ -171,6 +172,20 @@ def judgeSession (p : Plugin) (hd : Handlers) (implMask : Nat) (name idx : Strin
              sig := "C15:hang-or-crash", cover := ["hang-or-crash"], dyn := d0, mres := "" }
   if note.startsWith "harness" then
     return { agree := false, spec := true, why := note, sig := "", cover := [], dyn := d0, mres := "" }
+  -- `Start` registers under the stub's CURRENT registration timeout; a non-positive one means
+  -- the deadline has passed before the call: no registration, no Configure, Start fails.
+  -- (Unreachable with the repaired Configure: `C15_timeouts_sticky`.)
+  if !registers d0 then
+    let ok := oStart == "error" && getStrD obs "regname" == "" && (← obsCalls obs "cfgcalls").isEmpty
+    return { agree := ok, spec := false, sig := "C15:configure:call",
+             why := s!"the stub's registration timeout is {d0.regTimeoutNs} ns: it cannot register, Configure is never invoked",
+             cover := ["registration:zero-deadline"], dyn := d0, mres := "err:registration" }
+  if oStart == "error" && getStrD obs "regname" == "" then
+    return { agree := false, spec := false, sig := "C15:configure:call",
+             why := s!"Start failed before the stub registered ({note}) although its registration timeout should be {d0.regTimeoutNs} ns; Configure and the handlers are never invoked",
+             cover := ["start:failed-before-registration"], dyn := d0, mres := "" }
+  cover := (if (getIntD cfg "regto") > 0 then "regto:given" else "regto:unset") ::
+           (if (getIntD cfg "reqto") > 0 then "reqto:given" else "reqto:unset") :: cover
   -- registration carries the configured identity through
   if getStrD obs "regname" != name || getStrD obs "regidx" != idx then
     agree := false
